@@ -228,11 +228,14 @@ func TestC08_Twins(t *testing.T) {
 		var root *uni.Node
 		if ty.K == uni.KMap && ty.Elem.K == uni.KIface {
 			root = &uni.Node{T: ty}
-			for i, k := range []string{"a", "b", "s"} {
+			for i, k := range []string{"a", "b", "s", "m"} {
 				root.Keys = append(root.Keys, uni.Str(k))
 				et := st
 				if i == 1 {
 					et = uni.SliceOf(st)
+				}
+				if i == 3 {
+					et = uni.MapOf(uni.Scalar(uni.KString), st)
 				}
 				root.Elems = append(root.Elems, uni.InIface(uni.GenNode(t, et, p, 3)))
 			}
@@ -272,6 +275,20 @@ func TestC08_Twins(t *testing.T) {
 			var prefix []string
 			if len(g.Paths) > 0 && rapid.Bool().Draw(t, "underPath") {
 				prefix = g.Paths[rapid.IntRange(0, len(g.Paths)-1).Draw(t, "pfx")].Parts
+				// prefer collections (for the quantifier form below)
+				var colls [][]string
+				for _, pe := range g.Paths {
+					n := pe.Node
+					for n != nil && (n.T.K == uni.KIface || n.T.K == uni.KPtr) && !n.Nil {
+						n = n.Elem
+					}
+					if n != nil && (n.T.K.IsList() || n.T.K == uni.KMap) && len(n.Elems) > 0 {
+						colls = append(colls, pe.Parts)
+					}
+				}
+				if len(colls) > 0 && rapid.Bool().Draw(t, "underColl") {
+					prefix = colls[rapid.IntRange(0, len(colls)-1).Draw(t, "coll")]
+				}
 			}
 			parts := append(append([]string(nil), prefix...), nm)
 			ops := []bx.Op{bx.OpEq, bx.OpNe, bx.OpIn, bx.OpEmpty, bx.OpNotEmpty, bx.OpMatches}
